@@ -9,6 +9,7 @@ pub mod c18;
 pub mod c14;
 pub mod common;
 pub mod graph;
+pub mod rawnames;
 pub mod sched_props;
 pub mod text_props;
 pub mod tree_props;
